@@ -5,6 +5,7 @@ mod driver;
 mod e1;
 mod e2;
 mod e3;
+mod e5;
 mod gen_;
 mod rt;
 mod specs;
